@@ -742,6 +742,18 @@ libChkHeader(Lib lib)
 		}
 	}
 
+	/* Entries beyond numSect must be unused, as libNewHeader leaves them:
+	 * otherwise numSect itself is damaged (a lowered count would silently
+	 * drop the last sections).
+	 */
+	for( i = lib->hdr.numSect; i < LIB_INDEX_LIMIT; i += 1 )
+		if( libIndexName(lib, i) != LIB_INDEX_LIMIT ||
+		    libIndexSect(lib, i).offset != 0 ||
+		    libIndexSect(lib, i).length != 0 ) {
+			libError(lib, ALDOR_E_LibBadNumSect);
+			return false;
+		}
+
 #if 0
 	/* Check the section indices. */
 	for( n = LIB_NAME_START; n < LIB_NAME_LIMIT; n += 1 ) {
